@@ -181,6 +181,7 @@ type c31Runner struct {
 	w, r                 *network.SecureAead
 	link                 *c31Link
 	sent, recv           []byte
+	rbuf                 []byte
 	nframes              int // conn.Write calls of this session (frames sent in this direction)
 	limit                int // -1: untampered; else max number of plaintext bytes that may still be delivered in total
 }
@@ -212,7 +213,17 @@ func (c *c31Runner) checkStream(o *Oracle, off int) {
 }
 
 func (c *c31Runner) read(n int, o *Oracle) (string, bool) {
-	buf := make([]byte, n)
+	// one caller-owned buffer reused for all reads of the session, scribbled over after each read:
+	// nothing the reader keeps for later may alias it
+	if cap(c.rbuf) < n {
+		c.rbuf = make([]byte, n)
+	}
+	buf := c.rbuf[:n]
+	defer func() {
+		for i := range buf {
+			buf[i] ^= 0x3c
+		}
+	}()
 	m, err := c.r.Read(buf)
 	if err != nil {
 		c.closed = true
@@ -269,6 +280,9 @@ func (c *c31Runner) Step(t []string, o *Oracle) string {
 			o.Count("write-65535")
 		}
 		c.sent = append(c.sent, data...)
+		for i := range data { // the caller reuses its buffer after Write returned
+			data[i] ^= 0xc3
+		}
 		fr := c.link.frames[k:]
 		c.nframes += len(fr)
 		for i := range fr {
